@@ -199,6 +199,15 @@ inductive Bound where
   | unbounded
   deriving DecidableEq, Repr
 
+/-- The bound is a bound on `u8` values. -/
+def Bound.inU8 : Bound → Prop
+  | .included v => v < 256
+  | .excluded v => v < 256
+  | .unbounded => True
+
+instance (b : Bound) : Decidable b.inU8 := by
+  cases b <;> unfold Bound.inU8 <;> exact inferInstance
+
 /-- First vector of a range with this start bound. -/
 def Bound.first : Bound → Nat
   | .included v => v
